@@ -11,6 +11,8 @@ def plan(tier):
              Cond(B, "private_of_public", "main", T, "private JWK/PEM/DER export of a public-only key is an error"),
              Cond(B, "bytes_export", "main", T, "public byte exports use the public native key only"),
              Cond(B, "thumbprint", "main", T, "thumbprint input holds only the required public members"),
+             Cond(B, "generated_public", "main", T, "keys generated as public-only (auto_kid or not, registry or class, in a key set or not): no private member in any default / public export"),
+             Cond(B, "set_export_import", "main", T, "KeySet.as_dict over two keys of any types: a public export strips the private members of every asymmetric key"),
              Cond(B, "witness", "witness", 120)]
     # tokens: the producing round-trip harnesses scan everything that was encoded for private material
     p3, n3 = gen.specialise("c03_roundtrip.py", [("roundtrip_layout", [(a,) for a in (0, 3, 9, 13)])], "c12_gen3.py")
